@@ -140,13 +140,18 @@ def run_check(check, jobs=None, budget_s=None, quiet=False):
     global _CHECK
     t0 = time.time()
     env.install()
-    check.prepare()
+    try:
+        check.prepare()
+    except HarnessError as e:
+        sys.stdout.write("HARNESS-ERROR property=%s in prepare(): %s\n" % (check.id, e))
+        sys.stdout.flush()
+        return 2
     cases = list(check.cases())
     _CHECK = check
     jobs = jobs or int(os.environ.get("VERIF_JOBS", "0")) or min(16, os.cpu_count() or 1)
     jobs = max(1, min(jobs, len(cases)))
     total = Stats()
-    violations = []
+    violations = [v.d for v in getattr(check, "pre_violations", [])]
     errors = []
     cap_hit = False
     slowest = (0.0, None)
